@@ -1,2 +1,2 @@
 SPECIFICATION TSpec
-INVARIANTS SAssign SResets SRet SWordsRead SGroups SSample SWord
+INVARIANTS SOffered SAssign SResets SRet SWordsRead SGroups SSample SWord
